@@ -40,6 +40,7 @@ type vkFd struct {
 	rq     []byte
 	dgrams []vkDgram
 	eof    bool
+	dupped  bool // created by dup(2): whoever called it owns it
 	fullHup bool // the peer closed both directions (unix socket close): EPOLLHUP together with EOF
 	rerr   syscall.Errno // pending read error (reset)
 	werr   syscall.Errno // sticky write error
@@ -271,6 +272,7 @@ func vk_Dup(fd int) (int, error) {
 	}
 	nf := vk.newFd(f.kind)
 	nf.file = f.file
+	nf.dupped = true
 	return nf.fd, nil
 }
 
